@@ -124,8 +124,15 @@ class SpecMixin(object):
     raise SpecError('unary op')
 
   def sv_BoolOp(self, n, cx):
-    vals = [truthy(self.sv(v, cx), cx) for v in n.values]
-    return VBool(z3.And(vals) if isinstance(n.op, ast.And) else z3.Or(vals))
+    vals = []
+    is_and = isinstance(n.op, ast.And)
+    for v in n.values:
+      t = truthy(self.sv(v, cx), cx)
+      vals.append(t)
+      ts = z3.simplify(t)
+      if (is_and and z3.is_false(ts)) or (not is_and and z3.is_true(ts)):
+        break                       # short circuit: later operands may be undefined
+    return VBool(z3.And(vals) if is_and else z3.Or(vals))
 
   def sv_IfExp(self, n, cx):
     c = truthy(self.sv(n.test, cx), cx)
@@ -382,7 +389,10 @@ class SpecMixin(object):
     return self._quant(n, cx, False)
 
   def spec_fn_implies(self, n, cx):
-    a, b = [truthy(self.sv(x, cx), cx) for x in n.args]
+    a = truthy(self.sv(n.args[0], cx), cx)
+    if z3.is_false(z3.simplify(a)):
+      return VBool(True)            # the consequent may be undefined when the antecedent is statically false
+    b = truthy(self.sv(n.args[1], cx), cx)
     return VBool(z3.Implies(a, b))
 
   def spec_fn_iff(self, n, cx):
@@ -564,6 +574,11 @@ class SpecMixin(object):
     return to_u(v, cx)
 
   def pure_app(self, path, args, rt, cx):
+    if isinstance(rt, str) and rt.startswith('new:'):
+      # a factory: returns a freshly allocated object of the named class (exec mode only)
+      if not isinstance(cx, ops.State):
+        raise SpecError('factory %s used in a specification' % path)
+      return ops.alloc_obj(cx, Ty('obj', (), rt[4:]), rt[4:].lower())
     us = [to_u(a, cx) for a in args]
     rty = parse_type(rt)
     f = ufn('pure!' + path, *([U] * len(us) + [sort_of(rty)]))
